@@ -386,28 +386,65 @@ def run(tier, seed, drv):
                 res.violate(V("unknown-reply-wrong", f"handle({msg!r}) -> {out}, interrupt={intr}; expected [{exp!r}], False", site="CommandAdapter.handle"), {"unknown": True})
     except Exception as e:
         res.violate(V("handler-raised", f"unknown-reply probe raised {type(e).__name__}:{e}", site=type(e).__name__), {"unknown": True})
-    # HTTP post-hoc interrupt wrapper
+    # HTTP: endpoints discovered by the real HttpAdapter.get_endpoints, wrapped by the real
+    # HttpIo.create_route_definitions; every route's handler is called directly (aiohttp's own
+    # URL matching is a parameter).  Adapters with 0..4 interrupting endpoints out of 1..6.
     try:
+        from tickit.adapters.http import HttpAdapter
         from tickit.adapters.io.http_io import HttpIo
         from tickit.adapters.specifications import HttpEndpoint
-        for intr in (False, True):
-            order = []
+        shapes = [[False], [True], [True, True], [False, True, True], [True, False, True, True], [True, True, False, True, False, True]]
+        rng_h = random.Random(seed + 77)
+        for _ in range(6 if tier == "quick" else 40):
+            shapes.append([rng_h.random() < 0.6 for _ in range(rng_h.randrange(2, 7))])
+        for shape in shapes:
+            log = []
+            names = [f"ep_{chr(ord('a') + (7 * i + 3) % 26)}{i}" for i in range(len(shape))]   # getmembers order != declaration order
+            ns = {}
+            for i, (nm, intr) in enumerate(zip(names, shape)):
+                def mk(i=i, nm=nm, intr=intr):
+                    ctor = (HttpEndpoint.put, HttpEndpoint.get, HttpEndpoint.post)[i % 3]
 
-            async def func(request):
-                order.append("handler")
-                return "resp"
+                    @ctor(f"/{nm}/{{arg}}" if i % 2 else f"/{nm}", intr)
+                    async def method(self, request):
+                        log.append(("effect", nm))
+                        return f"reply-{nm}"
+                    method.__name__ = nm
+                    return method
+                ns[nm] = mk()
+            Adapter = type("GenHttpAdapter", (HttpAdapter,), ns)
+            adapter = Adapter()
 
             async def raise_interrupt():
-                order.append("interrupt")
-            io = HttpIo()
-            defs = list(io.create_route_definitions([(HttpEndpoint("/x", "PUT", intr), func)], raise_interrupt))
-            out = loop.run_until_complete(defs[0].handler(None))
-            res.case(("http", intr))
-            exp = ["handler", "interrupt"] if intr else ["handler"]
-            if order != exp or out != "resp":
-                res.violate(V("http-interrupt-wrong", f"endpoint interrupt={intr}: order {order}, expected {exp}", site="HttpIo"), {"http": intr})
+                log.append(("interrupt",))
+            defs = list(HttpIo().create_route_definitions(adapter.get_endpoints(), raise_interrupt))
+            res.case(("http", tuple(shape)))
+            res.count(f"http-interrupting-endpoints={sum(shape)}")
+            by_path = {(d.method, d.path): d for d in defs}
+            if len(by_path) != len(shape):
+                res.violate(V("http-routes-wrong", f"{len(shape)} endpoints declared, routes {sorted(by_path)}", site="HttpIo"), {"http": shape})
+                continue
+            # call the routes in several orders, each twice
+            order = list(range(len(shape)))
+            for rep in range(3):
+                rng_h.shuffle(order)
+                for i in order + order[:1]:
+                    nm, intr = names[i], shape[i]
+                    meth = ("PUT", "GET", "POST")[i % 3]
+                    path = f"/{nm}/{{arg}}" if i % 2 else f"/{nm}"
+                    d = by_path.get((meth, path))
+                    if d is None:
+                        res.violate(V("http-routes-wrong", f"no route for {meth} {path}: {sorted(by_path)}", site="HttpIo"), {"http": shape})
+                        continue
+                    del log[:]
+                    out = loop.run_until_complete(d.handler(None))
+                    exp = [("effect", nm)] + ([("interrupt",)] if intr else [])
+                    if log != exp or out != f"reply-{nm}":
+                        res.violate(V("http-interrupt-wrong", f"{meth} {path} (interrupt={intr}, {sum(shape)} interrupting endpoints of {len(shape)}): "
+                                      f"happened {log} reply {out!r}, expected {exp} reply 'reply-{nm}'", site="HttpIo",
+                                      several_interrupting=sum(shape) > 1), {"http": shape})
     except Exception as e:
-        res.notes.append(f"http part skipped: {e!r}")
+        res.violate(V("handler-raised", f"http part raised {type(e).__name__}:{e}", site=type(e).__name__), {"http": True})
     loop.close()
     asyncio.set_event_loop(None)
     res.exhaustive = True
